@@ -15,34 +15,51 @@ LVal(l) == <<"v1", "v2", "v3">>[l]
 VARIABLES phase,   \* "write" | "flushed2" | "compacted" | "retired" | "reopened" | "done"
           layer, idx,   \* while writing: which layer, which key comes next
           abs,     \* key -> value token or "NONE"
+          cov,     \* layer -> set of key indexes the layer writes (its table file spans from the smallest to the greatest)
           h
-vars == <<phase, layer, idx, abs, h>>
+vars == <<phase, layer, idx, abs, cov, h>>
+
+\* key ranges of the table files and the closure of a range compaction's selection under overlap, pass by pass
+NonEmpty == {l \in 1..NLayers : cov[l] # {}}
+Lo(l) == CHOOSE i \in cov[l] : \A j \in cov[l] : i <= j
+Hi(l) == CHOOSE i \in cov[l] : \A j \in cov[l] : i >= j
+Ov(a, b) == Lo(a) <= Hi(b) /\ Lo(b) <= Hi(a)
+Sel0(lo, hi) == {l \in NonEmpty : Lo(l) <= hi /\ lo <= Hi(l)}
+Grow(S) == S \cup {l \in NonEmpty : \E m \in S : Ov(l, m)}
+\* the selection is not closed after ONE pass over the files: a chain of overlaps
+Deep(lo, hi) == lo <= hi /\ Grow(Grow(Sel0(lo, hi))) # Grow(Sel0(lo, hi))
 
 St == [k \in {Keys[i] : i \in 1..N} |-> abs[k]]
 Rec(a, op) == [a |-> a, op |-> op, st |-> [k \in {Keys[i] : i \in 1..N} |-> abs'[k]], seq |-> 0]
 
 Init == phase = "write" /\ layer = 1 /\ idx = 1 /\ abs = [k \in {Keys[i] : i \in 1..N} |-> "NONE"] /\ h = <<>>
+        /\ cov = [l \in 1..NLayers |-> {}]
 
 \* per key and layer: put a value (layer-specific, so versions can be told apart), delete, or skip
 WriteKey == /\ phase = "write" /\ idx <= N
             /\ LET k == Keys[idx]
                IN \/ /\ abs' = [abs EXCEPT ![k] = LVal(layer)]
                      /\ h' = Append(h, Rec("put", <<[k |-> k, v |-> LVal(layer)]>>))
+                     /\ cov' = [cov EXCEPT ![layer] = @ \cup {idx}]
                   \/ /\ abs' = [abs EXCEPT ![k] = "NONE"]
                      /\ h' = Append(h, Rec("delete", <<[k |-> k, v |-> "TOMB"]>>))
-                  \/ UNCHANGED <<abs, h>>
+                     /\ cov' = [cov EXCEPT ![layer] = @ \cup {idx}]
+                  \/ UNCHANGED <<abs, h, cov>>
             /\ idx' = idx + 1 /\ UNCHANGED <<phase, layer>>
 FlushLayer == /\ phase = "write" /\ idx = N + 1
-              /\ UNCHANGED abs /\ h' = Append(h, Rec("flush", <<>>))        \* (abs' must be fixed before Rec reads it)
+              /\ UNCHANGED <<abs, cov>> /\ h' = Append(h, Rec("flush", <<>>))        \* (abs' must be fixed before Rec reads it)
               /\ IF layer < NLayers THEN layer' = layer + 1 /\ idx' = 1 /\ phase' = "write"
                  ELSE phase' = "flushed2" /\ UNCHANGED <<layer, idx>>
-CompactCall == /\ phase = "flushed2" /\ UNCHANGED abs
-               /\ \/ h' = Append(h, Rec("compact", <<>>))
-                  \/ \E lo \in 1..N, hi \in 1..N : h' = Append(h, Rec("compactsub", <<[k |-> Keys[lo], v |-> Keys[hi]]>>))
+\* three layers: only the range compactions whose selection needs a second closure pass (the rest of that space is sampled
+\* by GEN_Store's random walks)
+CompactCall == /\ phase = "flushed2" /\ UNCHANGED <<abs, cov>>
+               /\ \/ NLayers = 2 /\ h' = Append(h, Rec("compact", <<>>))
+                  \/ \E lo \in 1..N, hi \in 1..N : /\ (NLayers = 2 \/ Deep(lo, hi))
+                                                     /\ h' = Append(h, Rec("compactsub", <<[k |-> Keys[lo], v |-> Keys[hi]]>>))
                /\ phase' = "compacted" /\ UNCHANGED <<layer, idx>>
-RetireStep == phase = "compacted" /\ UNCHANGED abs /\ h' = Append(h, Rec("retire", <<>>)) /\ phase' = "retired" /\ UNCHANGED <<layer, idx>>
-Reopen == phase = "retired" /\ UNCHANGED abs /\ h' = Append(h, Rec("reopen", <<>>)) /\ phase' = "reopened" /\ UNCHANGED <<layer, idx>>
-Emit == phase = "reopened" /\ PrintT(<<"BEHAVIOUR", ToJson(h)>>) /\ phase' = "done" /\ UNCHANGED <<abs, h, layer, idx>>
+RetireStep == phase = "compacted" /\ UNCHANGED <<abs, cov>> /\ h' = Append(h, Rec("retire", <<>>)) /\ phase' = "retired" /\ UNCHANGED <<layer, idx>>
+Reopen == phase = "retired" /\ UNCHANGED <<abs, cov>> /\ h' = Append(h, Rec("reopen", <<>>)) /\ phase' = "reopened" /\ UNCHANGED <<layer, idx>>
+Emit == phase = "reopened" /\ PrintT(<<"BEHAVIOUR", ToJson(h)>>) /\ phase' = "done" /\ UNCHANGED <<abs, cov, h, layer, idx>>
 
 Next == WriteKey \/ FlushLayer \/ CompactCall \/ RetireStep \/ Reopen \/ Emit
 Spec == Init /\ [][Next]_vars
